@@ -312,6 +312,7 @@ func (r *runner) run(ctx context.Context, isStream bool, input any, opts ...Opti
 				subGraphInterrupts,
 				interruptAfterNodes,
 				append(completedTasks, cpt...),
+				nil,
 				checkPointID,
 				isSubGraph,
 				cm,
@@ -346,12 +347,14 @@ func (r *runner) run(ctx context.Context, isStream bool, input any, opts ...Opti
 			}
 
 			if len(subGraphInterrupts)+len(interruptRerunNodes) > 0 {
+				// completedTasks have been resolved already: their successors are in nextTasks and must be kept as pending inputs
 				return nil, r.handleInterruptWithSubGraphAndRerunNodes(
 					ctx,
 					interruptRerunNodes,
 					subGraphInterrupts,
 					interruptAfterNodes,
-					append(completedTasks, newCompletedTasks...),
+					newCompletedTasks,
+					nextTasks,
 					checkPointID,
 					isSubGraph,
 					cm,
@@ -461,6 +464,7 @@ func (r *runner) handleInterruptWithSubGraphAndRerunNodes(
 	subGraphInterrupts map[string]*subGraphInterruptError,
 	interruptAfterNodes []string,
 	completeTasks []*task,
+	pendingTasks []*task,
 	checkPointID *string,
 	isSubGraph bool,
 	cm *channelManager,
@@ -531,6 +535,10 @@ func (r *runner) handleInterruptWithSubGraphAndRerunNodes(
 			cp.Inputs[t.nodeKey] = t.call.action.inputZeroValue()
 		}
 	}
+	for _, t := range pendingTasks {
+		cp.Inputs[t.nodeKey] = t.input
+	}
+	intInfo.BeforeNodes = getHitKey(pendingTasks, r.interruptBeforeNodes)
 	err = r.checkPointer.convertCheckPoint(cp, isStream)
 	if err != nil {
 		return fmt.Errorf("failed to convert checkpoint: %w", err)
